@@ -18,8 +18,8 @@ theorem InvX.leave_ring {ex : Var → Prop} {s : St} {v : Var} {o : Nat} (hi : I
     split at hw
     · rename_i h; rw [h]; exact ((Ring.mem_remove hn v w).mp hw).1
     · exact hw
-  refine ⟨⟨⟨hi.notrap, hi.alive_lt, hi.dtors_eq, ?_, hi.ptr_live, ?_, ?_, ?_, hi.cur_lt, hi.mem_par,
-    hi.kids_ok, hi.kids_nodup, hi.ch_ok, hi.ch_nodup, hi.inner_ok, hi.inner_inj⟩, hi.ch_par⟩, ?_, hi.buf_ne⟩
+  refine ⟨⟨⟨hi.notrap, hi.alive_lt, hi.dtors_eq, ?_, hi.ptr_live, ?_, ?_, ?_, hi.cur_lt,
+    hi.kids_ok, hi.kids_nodup, hi.ch_ok, hi.ch_nodup, hi.inner_ok, hi.inner_inj⟩, hi.ch_par, hi.mem_par⟩, ?_, hi.buf_ne⟩
   · intro w x hw hex
     have hex' : ¬ ex w := fun h => hex (Or.inl h)
     have hwv : w ≠ v := fun h => hex (Or.inr h)
@@ -61,8 +61,8 @@ theorem InvX.null_ptr {ex : Var → Prop} {s : St} {v : Var} (hi : InvX (fun w =
     InvX ex (s.setPtr v none) := by
   have hptr : ∀ w, (s.setPtr v none).ptr w = if w = v then none else s.ptr w := fun w => rfl
   have hvout : ∀ x, v ∉ s.ring x := hi.ex_out v (Or.inr rfl)
-  refine ⟨⟨⟨hi.notrap, hi.alive_lt, hi.dtors_eq, ?_, ?_, ?_, hi.ring_nodup, ?_, hi.cur_lt, hi.mem_par,
-    hi.kids_ok, hi.kids_nodup, hi.ch_ok, hi.ch_nodup, hi.inner_ok, hi.inner_inj⟩, hi.ch_par⟩, ?_, hi.buf_ne⟩
+  refine ⟨⟨⟨hi.notrap, hi.alive_lt, hi.dtors_eq, ?_, ?_, ?_, hi.ring_nodup, ?_, hi.cur_lt,
+    hi.kids_ok, hi.kids_nodup, hi.ch_ok, hi.ch_nodup, hi.inner_ok, hi.inner_inj⟩, hi.ch_par, hi.mem_par⟩, ?_, hi.buf_ne⟩
   · intro w x hw hex
     rw [hptr] at hw
     split at hw
@@ -108,8 +108,8 @@ theorem InvX.attach {ex : Var → Prop} {s : St} {v : Var} {o : Nat} (hi : InvX 
       = if w = v then some o else s.ptr w := fun w => rfl
   have hring : ∀ x, ((s.setPtr v (some o)).setRing o (Ring.add (s.ring o) v)).ring x
       = if x = o then Ring.add (s.ring o) v else s.ring x := fun x => rfl
-  refine ⟨⟨⟨hi.notrap, hi.alive_lt, hi.dtors_eq, ?_, ?_, ?_, ?_, ?_, hi.cur_lt, hi.mem_par,
-    hi.kids_ok, hi.kids_nodup, hi.ch_ok, hi.ch_nodup, hi.inner_ok, hi.inner_inj⟩, hi.ch_par⟩, ?_, hi.buf_ne⟩
+  refine ⟨⟨⟨hi.notrap, hi.alive_lt, hi.dtors_eq, ?_, ?_, ?_, ?_, ?_, hi.cur_lt,
+    hi.kids_ok, hi.kids_nodup, hi.ch_ok, hi.ch_nodup, hi.inner_ok, hi.inner_inj⟩, hi.ch_par, hi.mem_par⟩, ?_, hi.buf_ne⟩
   · intro w x hw hex
     rw [hptr] at hw
     rw [hring]
@@ -172,7 +172,7 @@ theorem InvX.kill_var {ex : Var → Prop} {s : St} {v : Var} (hi : InvX ex s) (h
     (hb : b = true → ∀ d, v = Var.cur d → d < s.next) :
     InvX ex (s.setVLive v b) := by
   refine ⟨⟨⟨hi.notrap, hi.alive_lt, hi.dtors_eq, hi.ptr_ok, ?_, hi.ring_ptr, hi.ring_nodup, hi.ex_out, ?_,
-    hi.mem_par, hi.kids_ok, hi.kids_nodup, hi.ch_ok, hi.ch_nodup, hi.inner_ok, hi.inner_inj⟩, hi.ch_par⟩,
+    hi.kids_ok, hi.kids_nodup, hi.ch_ok, hi.ch_nodup, hi.inner_ok, hi.inner_inj⟩, hi.ch_par, hi.mem_par⟩,
     hi.ring_ne, hi.buf_ne⟩
   · intro w x hw
     have hw' : s.ptr w = some x := hw
